@@ -280,15 +280,20 @@ def foreign_cea(loss: int) -> bool:
         c = h.newest()
         h._push(c, B.cea(B.PEER_HOSTS[1], hbh=5, e2e=5).as_bytes())      # ... and the CEA names peer2 as its Origin-Host
         r0 = invariant(h)
+        referenced = [p for p in h.b.peers if p.connection is c]
         if ls == 0:
             h.ev_gone(c)
         else:
             n.close_connection_socket(c, B.DISCONNECT_REASON_UNKNOWN)
             h.settle()
         r1 = invariant(h)
+        # every peer whose connection attribute referenced the connection has had its connection removed: reason and time set
+        for p in referenced:
+            if not r1 and p.connection is None and (p.disconnect_reason is None or not p.last_disconnect):
+                r1 = "the connection of %s has been removed but its disconnect reason/time are not set" % p.node_name
     except Exception as e:
         return hx.fail((loss,), "raised %s: %s" % (type(e).__name__, str(e)[:80]))
-    return hx.check((loss,), (r1,), ("",), "after the loss of a connection no peer may keep referencing it")
+    return hx.check((loss,), (r1,), ("",), "after the loss of a connection no peer may keep referencing it, and every peer that referenced it records the loss")
 
 
 def specs(tier, seed, carve):
